@@ -33,6 +33,10 @@ func vnewdb() *Database {
 	MakeSuTran = func(ut *UpdateTran) *core.SuTran { return nil }
 	db := CreateDb(stor.HeapStor(8192))
 	db.CheckerSync()
+	// the conflict checker picks the victim of a conflict at random; the package's own test switch
+	// makes it deterministic (always the acting transaction) so that replays are reproducible
+	checkerAbortT1 = true
+	vtouched, vconcurrent = nil, false
 	return db
 }
 
